@@ -320,6 +320,11 @@ pub struct GuardState {
     /// and handle-free when it was removed: its name may be taken once more by a truncating create, and
     /// that new file may be closed and removed again before the directory is flushed
     pub removed_file: Option<String>,
+    /// the directory removed last while its removal is still unsynced
+    pub last_removed_dir: Option<String>,
+    /// directories whose removal can never be flushed any more, because their parent was removed before it was
+    /// (bottom-up removal): the stale pending removal hits whatever is created under that name later
+    pub stale_dirs: Vec<String>,
 }
 
 pub const KF_HANDLE: &str = "open-handle-across-rename-or-unlink";
@@ -358,6 +363,19 @@ fn quiescent(m: &Model, path: &str) -> bool {
 /// never contain such an op, so every mismatch they produce is a new violation; unguarded scenarios
 /// rely on `known_match`, which applies the same predicate to the minimised history.
 pub fn guard_violation(m: &Model, gs: &GuardState, op: &FsOp) -> Option<&'static str> {
+    if !gs.stale_dirs.is_empty() {
+        let made: Option<&String> = match op {
+            FsOp::CreateDir { path, .. } | FsOp::CreateDirAll { path, .. } | FsOp::WriteWhole { path, .. } => Some(path),
+            FsOp::Open { path, create, create_new, .. } if *create || *create_new => Some(path),
+            FsOp::Rename { to, .. } => Some(to),
+            _ => None,
+        };
+        if let Some(p) = made {
+            if gs.stale_dirs.iter().any(|s| p == s || p.starts_with(&format!("{s}/"))) {
+                return Some(KF_REMOVE);
+            }
+        }
+    }
     if let Some((_, why)) = gs.must_sync.iter().next() {
         return match op {
             FsOp::SyncDir { path, .. } if gs.must_sync.contains_key(path) => None,
@@ -500,6 +518,7 @@ pub fn guard_step(gs: &mut GuardState, op: &FsOp, mo: &Obs, after: &Model) {
                 gs.renamed_to = None;
                 gs.removed_dir_in = None;
                 gs.removed_file = None;
+                gs.last_removed_dir = None;
             }
         }
         FsOp::Rename { from, to, .. } if *mo == Obs::Unit && from != to => {
@@ -509,6 +528,17 @@ pub fn guard_step(gs: &mut GuardState, op: &FsOp, mo: &Obs, after: &Model) {
         }
         FsOp::RemoveFile { path, .. } | FsOp::RemoveDir { path, .. } | FsOp::RemoveDirAll { path, .. } if *mo == Obs::Unit => {
             let first_remove = gs.must_sync.is_empty();
+            if matches!(op, FsOp::RemoveDir { .. }) {
+                if gs.removed_dir_in.as_deref() == Some(path.as_str()) {
+                    // the parent goes before the child's removal was flushed
+                    if let Some(child) = gs.last_removed_dir.take() {
+                        gs.stale_dirs.push(child);
+                    }
+                }
+                gs.last_removed_dir = Some(path.clone());
+            } else {
+                gs.last_removed_dir = None;
+            }
             gs.must_sync.insert(parent_of(path), KF_REMOVE);
             gs.removed_dir_in = if matches!(op, FsOp::RemoveDir { .. }) { Some(parent_of(path)) } else { None };
             // was the removed file durable in data and entry, and free of handles? (the durable image still
